@@ -12,11 +12,11 @@ import (
 
 func init() {
 	register(&Property{
-		ID:      "C05",
-		Engines: []string{"cfg", "lockset"},
+		ID:          "C05",
+		Engines:     []string{"cfg", "lockset"},
 		Explanation: "Per-connection job serialisation, structural part: jobList is only touched under Conn.mux (O1); Execute tests closed and appends in one critical section and its closed edge returns false without appending or starting a drainer (O2); a drainer is started only by the submitter that found the list empty, decided in the critical section of the append (O3); the drainer decides exhaustion, resets the list and fetches the next job in one critical section, runs the job with the mutex released and advances its index by one (O4); jobs run inside a recover frame (O5); MustExecute has no closed test, the nbhttp close hook does all its work inside a MustExecute job, and parsers / WebSocket connections on the poller paths use the bound Execute of the registered connection (O6).",
-		NotCovered: "the hand-over under all interleavings (a model-checking statement; O3+O4 are its necessary shape); behaviour of user-supplied executors",
-		Run:        runC05,
+		NotCovered:  "the hand-over under all interleavings (a model-checking statement; O3+O4 are its necessary shape); behaviour of user-supplied executors",
+		Run:         runC05,
 	})
 }
 
@@ -327,27 +327,27 @@ func (c *Ctx) closureStoredTo(g *ssa.Function, field string) bool {
 // Execute of an nbio.Conn; the inline executor is not assigned to poller-served connections.
 func wsExecutorStores(c *Ctx, ob string) {
 
-		n := 0
-		for _, f := range c.pkgFuncs("websocket") {
-			for _, st := range c.P.StoresTo(f, "websocket.Conn.Execute") {
-				n++
-				key := fmt.Sprintf("%s: websocket Execute#%d", c.P.FuncName(ir.Outermost(f)), n)
-				v := ir.Resolve(st.Val)
-				ok := false
-				if c.P.LoadedField(v) == "nbhttp.Parser.Execute" {
-					ok = true
-				}
-				if b, _ := boundMethod(v); b != nil && c.P.FuncName(b) == "(*nbio.Conn).Execute" {
-					ok = true
-				}
-				why := "the WebSocket connection's executor is " + c.P.Desc(v) + ": message callbacks would not be serialised with the connection's jobs"
-				if fn, isFn := v.(*ssa.Function); isFn && c.P.FuncName(fn) == "nbhttp.SyncExecutor" {
-					// the inline executor bypasses the connection's job list: the close job that the
-					// engine queues with MustExecute then runs at once, next to a running message
-					// callback.  A connection read by its own goroutine inherits it through its parser.
-					why = "the WebSocket connection is given the inline executor at " + c.Pos(st) + " although it is served by the poller: its callbacks bypass the connection's job list, so the close job queued with MustExecute overlaps a running message callback"
-				}
-				c.Cond(ok, ob, key, c.Pos(st), "inherits a serialising executor", why)
+	n := 0
+	for _, f := range c.pkgFuncs("websocket") {
+		for _, st := range c.P.StoresTo(f, "websocket.Conn.Execute") {
+			n++
+			key := fmt.Sprintf("%s: websocket Execute#%d", c.P.FuncName(ir.Outermost(f)), n)
+			v := ir.Resolve(st.Val)
+			ok := false
+			if c.P.LoadedField(v) == "nbhttp.Parser.Execute" {
+				ok = true
 			}
+			if b, _ := boundMethod(v); b != nil && c.P.FuncName(b) == "(*nbio.Conn).Execute" {
+				ok = true
+			}
+			why := "the WebSocket connection's executor is " + c.P.Desc(v) + ": message callbacks would not be serialised with the connection's jobs"
+			if fn, isFn := v.(*ssa.Function); isFn && c.P.FuncName(fn) == "nbhttp.SyncExecutor" {
+				// the inline executor bypasses the connection's job list: the close job that the
+				// engine queues with MustExecute then runs at once, next to a running message
+				// callback.  A connection read by its own goroutine inherits it through its parser.
+				why = "the WebSocket connection is given the inline executor at " + c.Pos(st) + " although it is served by the poller: its callbacks bypass the connection's job list, so the close job queued with MustExecute overlaps a running message callback"
+			}
+			c.Cond(ok, ob, key, c.Pos(st), "inherits a serialising executor", why)
 		}
 	}
+}
